@@ -60,6 +60,9 @@ def run_data(ctx, case):
         kind = s.pop('ck', None)
         if kind == 'z':
             payload = s.pop('payload')
+            if isinstance(payload, list):
+                # ['run', n, head]: head + n zero bytes (kept symbolic so that the case stays small): near-maximal deflate expansion
+                payload = bytes(payload[2]) + bytes(payload[1])
             stream = zstream(payload, s.pop('level'), s.pop('splits', []))
             variant = s.pop('variant', 'ok')
             ch_type = 1
@@ -598,6 +601,14 @@ def sweep(tier):
                     s2 = [dict(s) for s in secs]
                     s2[3] = dict(s2[3], variant=variant, **extra)
                     cases.append({'k': 'data', 'model': dict(m, sections=s2)})
+    # extremely redundant large payloads: deflate expands up to 1032:1, so a few KiB of stream carry several MiB (every zlib level)
+    for k, (n, level) in enumerate(((4 << 20, 9), (4 << 20, 1), (3 << 20, 6), (8 << 20, 4)) if tier == 'quick' else
+                                   ((4 << 20, 9), (4 << 20, 1), (3 << 20, 6), (8 << 20, 4), (32 << 20, 9), (20 << 20, 6), (5 << 20, 0))):
+        secs = [{'name': '', 'sh_type': 0},
+                {'ck': 'z', 'name': '.debug_str', 'sh_type': 1, 'payload': ['run', n, b'\0first\0second string\0'], 'level': level, 'splits': [],
+                 'ch_addralign': 1, 'sh_addralign': 1},
+                {'name': '.shstrtab', 'sh_type': 3, 'data': b''}]
+        cases.append({'k': 'data', 'model': {'cls': (64, 32)[k % 2], 'le': bool(k % 3), 'e_type': 1, 'sections': secs, 'shstrndx': 2, 'segments': []}})
     return cases
 
 
